@@ -237,6 +237,9 @@ def epTxChunk (idx : Nat) (st : EpSt) (c : RawChunk) : EpSt :=
                         else s!"window-overshoot:{st.outstanding}>{st.bestRwnd}@{idx}")
           else st
         else st
+      -- a chunk with user data for a TSN that a delivered gap block covers must not leave again either
+      let st := if !isNew && !d.data.isEmpty && st.unacked.any (fun e => e.1 == d.tsn && e.2.2) then
+          setViol st s!"rexmit-after-gap-ack:{d.tsn}@{idx}" else st
       match st.cumAcked with
       | some ca => if !tsnGt d.tsn ca then setViol st s!"rexmit-after-sack:{d.tsn}@{idx}" else st
       | none => st
